@@ -968,6 +968,74 @@ fn checkpoint_case(ds: &[ReplicationDelta], rng: &mut Rng, out: &mut Out, thorou
     }
 }
 
+
+/// the checkpoint MANAGER path (what a node runs): `CheckpointManager::create_checkpoint` puts the image
+/// into an object store, `load_checkpoint` = get + open + validate + load.  The stored object is compared
+/// with the model's writer (`C` op) and reading it — pristine, cut, one byte replaced — with the model's
+/// reader, for both `CheckpointConfig::default()` (compression_enabled: the feature is off) and `test()`.
+fn manager_case(ds: &[ReplicationDelta], rng: &mut Rng, out: &mut Out) {
+    use redis_sim::streaming::checkpoint::{CheckpointConfig, CheckpointManager};
+    use redis_sim::streaming::{InMemoryObjectStore, ManifestManager, ObjectStore};
+    let state: HashMap<String, ReplicatedValue> = ds.iter().map(|d| (d.key.clone(), d.value.clone())).collect();
+    let orig = show_state(&state);
+    let last = rng.below(50);
+    let cfg = if rng.chance(1, 2) { CheckpointConfig::default() } else { CheckpointConfig::test() };
+    let rt = tokio::runtime::Builder::new_current_thread().enable_time().build().unwrap();
+    let store = InMemoryObjectStore::new();
+    let mgr = CheckpointManager::new(std::sync::Arc::new(store.clone()), "p".to_string(), ManifestManager::new(store.clone(), "p"), cfg);
+    let res = match rt.block_on(mgr.create_checkpoint(state.clone(), last)) {
+        Ok(r) => r,
+        Err(e) => {
+            out.violation("C14:checkpoint-manager:create-failed", &format!("create_checkpoint failed: {}", e), json!({"state": orig}));
+            return;
+        }
+    };
+    let img = rt.block_on(store.get(&res.key)).expect("stored checkpoint");
+    let payload = img[52..img.len() - 16].to_vec();
+    out.op(format!("C {} {} {} {}", state.len(), res.timestamp_ms, last, hex(&payload)), hex(&img));
+    out.op(format!("IC {}", hex(&img)), "ok same".into());
+    if res.key_count != state.len() as u64 || res.size_bytes != img.len() as u64 || res.last_segment_id != last {
+        out.violation("C14:checkpoint-manager:result-fields", "CheckpointResult disagrees with what was stored", json!({"state": orig}));
+    }
+    out.count("checkpoint-manager:case");
+    let load = |b: &[u8]| -> String {
+        rt.block_on(store.put(&res.key, b)).expect("put");
+        match catch_unwind(AssertUnwindSafe(|| rt.block_on(mgr.load_checkpoint(&res.key)))) {
+            Err(_) => "crash".into(),
+            Ok(Err(e)) => format!("err {}", chk_err(&e)),
+            Ok(Ok(d)) => if show_state(&d.state) == orig { "ok same".into() } else { "ok diff".into() },
+        }
+    };
+    let r = load(&img);
+    if r != "ok same" {
+        out.violation("C14:roundtrip:checkpoint-manager", "a state did not survive create_checkpoint / load_checkpoint", json!({"state": orig, "got": r}));
+    }
+    let n = img.len();
+    for _ in 0..12 {
+        let l = rng.below(n as u64) as usize;
+        let r = load(&img[..l]);
+        out.op(format!("ct {}", l), r.clone());
+        out.count("damage:checkpoint-manager:truncate");
+        if !r.starts_with("err") {
+            out.violation("C14:checkpoint-manager:truncate:not-an-error", "load_checkpoint did not reject a truncated object", json!({"checkpoint": hex(&img), "len": l, "got": r}));
+        }
+        let p = rng.below(n as u64) as usize;
+        let v = img[p] ^ (1 << rng.below(8));
+        let mut b = img.clone();
+        b[p] = v;
+        let r = load(&b);
+        out.op(format!("cx {} {}", p, v), r.clone());
+        out.count("damage:checkpoint-manager:bitflip");
+        if r == "crash" || r == "ok diff" {
+            out.violation("C14:checkpoint-manager:corrupt:decoded-different", "load_checkpoint decoded a corrupted object into different data (or panicked)", json!({"checkpoint": hex(&img), "pos": p, "val": v, "got": r}));
+        }
+    }
+    // a missing object is an error, not a panic
+    if !matches!(catch_unwind(AssertUnwindSafe(|| rt.block_on(mgr.load_checkpoint("p/checkpoints/none.chk")))), Ok(Err(_))) {
+        out.violation("C14:checkpoint-manager:missing-object", "load_checkpoint of a missing object is not an error", json!({}));
+    }
+}
+
 /// WAL entry images: every position of the 16-byte entry header and sampled payload positions
 fn wal_entry_damage(d: &ReplicationDelta, rng: &mut Rng, out: &mut Out, thorough: bool, fixed: bool) {
     let e = WalEntry::from_delta(d, 5).unwrap();
@@ -1178,6 +1246,9 @@ pub fn run(a: &Args) {
         checkpoint_case(&ds, &mut rng, &mut out, thorough);
         if rng.chance(1, 3) {
             wal_entry_damage(&ds[0], &mut rng, &mut out, thorough, false);
+        }
+        if case_no % 4 == 0 {
+            manager_case(&ds, &mut rng, &mut out);
         }
     }
     out.finish("case = one batch of real ReplicationDeltas (every CRDT kind: values from random_value / reachable replicas / CRDT API, many-field hashes, binary/empty/1000-byte strings, tombstones, vector clocks, expiry, u64::MAX stamps; unicode/NUL/empty keys) encoded as WAL entries, one segment, one checkpoint and five gossip messages; every (sampled when > 400 bytes; thorough: every) truncation length and header/footer position x {bit flip, 0x00, 0xFF} plus sampled body positions; distinct by canonical text of the batch; non-trivial iff >= 2 deltas");
